@@ -261,3 +261,58 @@ func C04LargeArgs() {
 	sym.Quiesce()
 	sym.Reach("large-args-done")
 }
+
+// C04BusyObject: requests pile up behind a slow call on one object of a service. (a) calls: every one
+// of them gets exactly one answer (reply or error), also when the object is REMOVED while they are
+// queued; (b) posts: none of them ever produces a response frame, not even when the queues overflow.
+func C04BusyObject() {
+	v := newZZVictim(0)
+	sub := newZZObj()
+	sub.gate = make(chan struct{})
+	s := v.srv.(*server)
+	s.Router.RLock()
+	svc := s.Router.services[v.sid]
+	s.Router.RUnlock()
+	id, err := svc.Add(sub.front)
+	sym.Assert(err == nil, "sub-object-added")
+	// the slow call
+	v.hostile.inject(zzFrame(net.Call, v.sid, id, 1000, 100, nil))
+	sym.Quiesce()
+	before := len(v.hostile.sentMessages())
+	posts := sym.Choose("queued-are-posts", 2) == 1
+	n := 3
+	if posts {
+		n = 24 // more than connection queue (10) + mailbox (10) hold
+	}
+	typ := uint8(net.Call)
+	if posts {
+		typ = net.Post
+	}
+	for i := 0; i < n; i++ {
+		v.hostile.inject(zzFrame(typ, v.sid, id, 1000, uint32(200+i), nil))
+	}
+	sym.Quiesce()
+	removed := false
+	if !posts && sym.Choose("object-removed-while-queued", 2) == 1 {
+		sym.Assert(svc.Remove(id) == nil, "remove-ok")
+		removed = true
+	}
+	close(sub.gate)
+	sym.Quiesce()
+	out := v.hostile.sentMessages()[before:]
+	answers := map[uint32]int{}
+	for _, m := range out {
+		answers[m.Header.ID]++
+		sym.Assert(m.Header.Type == net.Reply || m.Header.Type == net.Error, "busy/unexpected-frame-type")
+	}
+	sym.Assert(answers[100] == 1, "busy/slow-call-answer-count")
+	for i := 0; i < n; i++ {
+		if posts {
+			sym.Assert(answers[uint32(200+i)] == 0, "busy/post-produced-a-response")
+		} else {
+			sym.Assert(answers[uint32(200+i)] == 1, "busy/queued-call-answer-count")
+		}
+	}
+	_ = removed
+	sym.Reach("busy-done")
+}
